@@ -347,6 +347,10 @@ class Plane:
             plane.amplitude = lentil.rescale(plane.amplitude, scale=scale, shape=None,
                                                 mask=None, order=3, mode='nearest',
                                                 unitary=False)/scale
+        else:
+            # a scalar amplitude is broadcast over the (rescaled) mask and needs
+            # the same power-preserving factor
+            plane.amplitude = plane.amplitude/scale
 
         if plane.opd.ndim > 1:
             plane.opd = lentil.rescale(plane.opd, scale=scale, shape=None, mask=None,
